@@ -121,6 +121,15 @@ def gen(ctx, deep):
         cfg = ec.Config("rbac", adapter=True, watcher=None, initial={"p": p, "g": g, "g2": []})
         cfg.tag = {"depth_ok": True}
         jobs.append((cfg, [("remove", "p", ["nobody", "x", "y"])]))
+    # the same questions in states reached through a detour: a link removed and re-added, a reload from a store that
+    # no longer holds any role assignment (then one granted again)
+    detour = [pg for pg in pols if pg[1]]
+    for p, g in rng.sample(detour, min(len(detour), 200 if not deep else 2000)):
+        cfg = ec.Config("rbac", adapter=True, watcher=None, initial={"p": p, "g": g, "g2": []})
+        cfg.tag = {"depth_ok": True}
+        e = rng.choice(g)
+        jobs.append((cfg, [("remove", "g", e), ("add", "g", e)]))
+        jobs.append((cfg, [("setstore", {"p": p, "g": [], "g2": []}), ("load", None), ("add", "g", e)]))
     # chains around the depth bound (names n0 -> n1 -> ... ), probed; beyond the bound enforce and the query API differ by design
     for L in range(7, 13):
         chain = [[f"n{i}", f"n{i+1}"] for i in range(L)]
@@ -162,7 +171,7 @@ def run(ctx):
     res.rule = (
         "RBAC policies over 4 names (users and roles, incl. self-assignments, cycles, diamonds) x 2 objects: a seeded sample (thorough: all) of the "
         "policies with <= 2 permission and <= 2 grouping rules, random larger ones, chains of length 7-12 around the depth bound, and random domain "
-        "policies; for every policy: get_implicit_roles_for_user / get_implicit_permissions_for_user / get_implicit_users_for_permission of every "
+        "policies, plus the same policies reached through a detour (a link removed and re-added; a reload from a store without role assignments); for every policy: get_implicit_roles_for_user / get_implicit_permissions_for_user / get_implicit_users_for_permission of every "
         "name compared with the Lean model and with the specification (reachability by an independent bounded BFS), and on the implementation itself: "
         "enforce <-> implicit permission for every request, implicit users = non-role subjects that enforce allows (each once), get_roles/get_users "
         "inverse; non-trivial/distinct = distinct policy"
@@ -176,9 +185,9 @@ def _stage(ctx, res, deep):
     recs = {}
 
     def judge(r, cfg, hist, i, op, rec, model, case, queries):
-        recs[id(cfg)] = (rec, case)
+        recs[id(hist)] = (rec, case)  # the state after the last call of the history is the one the Lean side is asked about
         for kind, text in rec.get("extra", {}).get("problems", []):
-            r.violation({"signature": f"C15:{cfg.shape}:{kind}", "what": f"{cfg.shape} policy p={cfg.initial['p']} g={cfg.initial['g']}: {text}", "case": case, "expected": "agreement", "observed": text, "model_text": ec.TEXT[cfg.shape]})
+            r.violation({"signature": f"C15:{cfg.shape}:{kind}", "what": f"{cfg.shape} policy p={rec['pol']['p']} g={rec['pol']['g']}: {text}", "case": case, "expected": "agreement", "observed": text, "model_text": ec.TEXT[cfg.shape]})
         return True
 
     ec.run_configs(res, jobs, judge, fresh_oracle=False, extra="c15")
@@ -187,14 +196,15 @@ def _stage(ctx, res, deep):
     spans = []
     for cfg, hist in jobs:
         qs = lean_queries(cfg)
-        start = len(lines) + 2
-        lines += ["#reset", cfg.init_line()] + [q_line(q) for q in qs]
+        ops = [ll for op in hist for ll in ec.lean_lines(op)]
+        start = len(lines) + 2 + len(ops)
+        lines += ["#reset", cfg.init_line()] + ops + [q_line(q) for q in qs]
         spans.append((start, qs))
     answers = run_driver("enf", lines)
     for (cfg, hist), (start, qs) in zip(jobs, spans):
-        if id(cfg) not in recs:
+        if id(hist) not in recs:
             continue
-        rec, case = recs[id(cfg)]
+        rec, case = recs[id(hist)]
         for k, q in enumerate(qs):
             model, spec = parse_ms(answers[start + k])
             impl = impl_answer(rec, q)
@@ -206,7 +216,7 @@ def _stage(ctx, res, deep):
             if impl != model:
                 res.disagree({"what": f"query {q}: impl {impl} vs model {model}", "case": case})
             if impl != spec:
-                res.violation({"signature": f"C15:{cfg.shape}:{q[0]}", "what": f"{cfg.shape} policy p={cfg.initial['p']} g={cfg.initial['g']}: {q} answers {impl}, the specification (reachability over the assignments) gives {spec}", "case": case, "expected": spec, "observed": impl, "model_text": ec.TEXT[cfg.shape]})
+                res.violation({"signature": f"C15:{cfg.shape}:{q[0]}", "what": f"{cfg.shape} policy p={rec['pol']['p']} g={rec['pol']['g']}: {q} answers {impl}, the specification (reachability over the assignments) gives {spec}", "case": case, "expected": spec, "observed": impl, "model_text": ec.TEXT[cfg.shape]})
 
 
 def replay(obj):
